@@ -523,58 +523,72 @@ fn run_cold_open(sc: &Scenario, seed: u64, run_no: u64) -> SchedOutcome {
         let v = *env.next_vid.lock();
         v
     };
-    match Arc::try_unwrap(db) {
-        Ok(db) => drop(db),
-        Err(_) => return fail(&sink, "handle still shared".into()),
-    }
-    raindb::verif::clear(ROOT);
-    install(&sink, &ctl);
-    let db = match DB::open(opts.to_options(ROOT, &fs)) {
-        Ok(db) => Arc::new(db),
-        Err(e) => return fail(&sink, format!("reopen failed {}", e)),
-    };
-    let _ = wait_quiescent(&db, Duration::from_secs(20));
-    let env = Arc::new(Env {
-        db: Arc::clone(&db),
-        sink: Arc::clone(&sink),
-        u: Arc::clone(&u),
-        ctl: ctl.clone(),
-        next_vid: Mutex::new(next_vid),
-    });
+    // several rounds of: close, reopen (nothing cached), racing first reads, reads through
+    // whatever the racing opens left in the caches
     let n = sc.nth;
-    fs.set_rendezvous("size", n, 300);
-    let mut rxs = vec![];
-    for i in 0..n {
-        let e2 = Arc::clone(&env);
-        let name = format!("r{}", i + 1);
-        // keys far apart: different files
-        let k = 1 + ((i as i64) * 5) / ((n as i64) - 1).max(1);
-        rxs.push((
-            name.clone(),
-            spawn_named(&name, move || {
-                e2.get(k);
-            }),
-        ));
-    }
-    for (name, rx) in rxs {
-        if rx.recv_timeout(Duration::from_secs(20)).is_err() {
-            sink.emit_json("Hang", json!({"what": format!("cold reader {}", name)}));
-            status = "hang".into();
+    let mut next_vid = next_vid;
+    let mut met = 0;
+    let mut db = db;
+    let mut env_last: Option<Arc<Env>> = None;
+    for round in 0..4 {
+        drop(env_last.take());
+        match Arc::try_unwrap(db) {
+            Ok(d) => drop(d),
+            Err(_) => return fail(&sink, "handle still shared".into()),
         }
-    }
-    let met = fs.set_rendezvous("size", 0, 0);
-    if status == "ok" {
-        // whatever the racing opens left in the caches is used from now on
-        for _ in 0..2 {
-            for k in 1..=6 {
-                env.get(k);
+        raindb::verif::clear(ROOT);
+        install(&sink, &ctl);
+        db = match DB::open(opts.to_options(ROOT, &fs)) {
+            Ok(d) => Arc::new(d),
+            Err(e) => return fail(&sink, format!("reopen failed {}", e)),
+        };
+        let _ = wait_quiescent(&db, Duration::from_secs(20));
+        let env = Arc::new(Env {
+            db: Arc::clone(&db),
+            sink: Arc::clone(&sink),
+            u: Arc::clone(&u),
+            ctl: ctl.clone(),
+            next_vid: Mutex::new(next_vid),
+        });
+        fs.set_rendezvous("size", n, 300);
+        let mut rxs = vec![];
+        for i in 0..n {
+            let e2 = Arc::clone(&env);
+            let name = format!("r{}", i + 1);
+            // keys far apart: different files
+            let k = 1 + (((i as i64) * 5) / ((n as i64) - 1).max(1) + round as i64) % 6;
+            rxs.push((
+                name.clone(),
+                spawn_named(&name, move || {
+                    e2.get(k);
+                }),
+            ));
+        }
+        for (name, rx) in rxs {
+            if rx.recv_timeout(Duration::from_secs(20)).is_err() {
+                sink.emit_json("Hang", json!({"what": format!("cold reader {}", name)}));
+                status = "hang".into();
             }
         }
-        env.scan(false, false);
-        env.put(3, 40);
-        env.get(3);
-        let _ = wait_quiescent(&db, Duration::from_secs(20));
+        met += fs.set_rendezvous("size", 0, 0);
+        if status == "ok" {
+            for _ in 0..2 {
+                for k in 1..=6 {
+                    env.get(k);
+                }
+            }
+            env.scan(false, false);
+            env.put(3, 40);
+            env.get(3);
+            let _ = wait_quiescent(&db, Duration::from_secs(20));
+        }
+        next_vid = *env.next_vid.lock();
+        env_last = Some(env);
+        if status != "ok" {
+            break;
+        }
     }
+    let env = env_last.take().unwrap();
     for p in peek_panics() {
         sink.emit_json(
             "Panic",
